@@ -12,6 +12,11 @@ Local Open Scope Z_scope.
 Section S.
 Variable sb : list byte -> Z.
 
+(* the vocabulary of the API as the drivers use it (tied to the headers by TokImplCheck.v) *)
+Definition default_depth : Z := 32.                      (* JSON_TOKENER_DEFAULT_DEPTH *)
+Definition flags_of_word (w : Z) : bool * bool * bool :=  (* STRICT 0x01, ALLOW_TRAILING_CHARS 0x02, VALIDATE_UTF8 0x10 *)
+  (Z.odd w, Z.odd (w / 2), Z.odd (w / 16)).
+
 Definition from_fd_parse (t : tok) (bytes : list byte) : presult :=
   match parse_ex sb t bytes with
   | PR t' None => if is_continue (err t') then parse_ex sb t' [0] else PR t' None
